@@ -15,7 +15,7 @@ def _miss(v):
 DATA_CARRIERS = ["f64", "list_none", "list_nan", "tuple_nan", "f32", "int", "uint", "int16", "masked_nan", "masked_junk", "masked_mixed", "masked_int", "masked_fill", "series",
                  "series_shifted", "dask", "object"]
 TIME_CARRIERS = ["dt64ns", "dt64us", "dt64ms", "dt64s", "dt64m", "dt64h", "dt64D", "list_datetime", "list_timestamp", "dtindex", "series",
-                 "dtindex_utc", "series_utc", "epoch_list", "epoch_int", "epoch_float", "epoch_int32", "epoch_series", "epoch_index", "list_datetime_ny"]
+                 "dtindex_utc", "series_utc", "epoch_list", "epoch_int", "epoch_float", "epoch_int32", "epoch_series", "epoch_index", "list_datetime_ny", "dtindex_ny", "series_ny"]
 SPAN_CARRIERS = ["list", "tuple"]
 
 
@@ -141,6 +141,10 @@ def time(ts, kind="dt64ns"):
         return pd.DatetimeIndex(base.astype("datetime64[ns]"))
     if kind == "series":
         return pd.Series(base.astype("datetime64[ns]"))
+    if kind in ("dtindex_ny", "series_ny"):
+        # the same instants as timezone-aware pandas objects of a zone with daylight saving
+        idx = pd.DatetimeIndex(base.astype("datetime64[ns]")).tz_localize("UTC").tz_convert("America/New_York")
+        return idx if kind == "dtindex_ny" else pd.Series(idx)
     if kind == "dtindex_utc":
         return pd.DatetimeIndex(base.astype("datetime64[ns]")).tz_localize("UTC")
     if kind == "series_utc":
